@@ -119,6 +119,7 @@ def run(F, R):
     _roles = _c5.classify_api(_c5.queue_api(F, M))
     z8_pcm_complete(F, R, M, _roles, rule='P12')
     z7_release_after_pop(F, RuleProxy(R, {'Z7': 'P12'}), M, _roles)
+    p14_pinned_buffers(F, R, M, _roles)
     # P13: a buffer is unshared in the direction it was shared in: the block driver's completion calls present the same
     # readable / writable lists to pop_used as the submission gave to add (C14.K3 shapes, K4 submission~completion siblings)
     from . import C14 as _c14
@@ -127,6 +128,44 @@ def run(F, R):
         _c14.k4_siblings(F, RuleProxy(R, {'K4': 'P13'}, only=lambda inst: '~' in inst), _ops)
     from .C16 import s4_custody
     s4_custody(F, R, M, _c5.classify_api(_c5.queue_api(F, M)), rule='P7', only=('receive', 'recycle_rx_buffer'))
+
+
+def p14_pinned_buffers(F, R, M, roles):
+    """A driver-owned buffer that stays posted after the posting method returns must not move with the driver value: the
+    address given to share is the address later given to unshare only if the buffer lives behind a pointer (Box, Vec, DMA
+    region, leaked allocation).  A field that is an inline array of plain data and is handed to `add` (not to the blocking
+    add-wait-pop helper) is shared at one address and - once the driver value has been moved, e.g. returned from `new` -
+    unshared at another."""
+    n = 0
+    for name, a in F.adts.items():
+        if a['kind'] != 'struct' or name in (M.queue_adt, M.dma_adt):
+            continue
+        fields = {f['name']: f['ty'] for f in a['variants'][0]['fields']}
+        if not any(M.queue_adt in f['mentions'] or (M.owning_adt and M.owning_adt in f['mentions']) for f in a['variants'][0]['fields']):
+            continue
+        posted = {}
+        for b in F.bodies.values():
+            if b.get('impl_adt') != name or not F.handwritten(b) or b['kind'] != 'AssocFn':
+                continue
+            if not any(bl['term']['k'] == 'call' and roles.get(bl['term'].get('fn')) == 'add' for bl in b['blocks']):
+                continue
+            sg = supergraph(F, b['id'], tag='flat', max_depth=0)
+            S = sg.sym
+            for c in sg.calls(lambda d: roles.get(d.get('fn')) == 'add'):
+                for a_ in c.d['args'][1:3]:
+                    for x in deep_subterms(S, S.operand(c.id, a_)):
+                        if x[0] == 'loc' and x[1][0] == 'deref' and strip_ptr(x[1][1]) == ('param', 1) and x[2] and x[2][0][0] == 'f' and len(x[2][0]) > 2 and x[2][0][2] == name:
+                            posted.setdefault(x[2][0][1], site(sg, c))
+        if not posted:
+            continue
+        n += 1
+        for f, where in sorted(posted.items()):
+            ty = fields.get(f, '')
+            inline = ty.startswith('[') and not any(k in ty for k in ('NonNull', 'Box<', '*mut', '*const', '&'))
+            R.check(not inline, 'P14', '%s.%s:posted-buffer-is-pinned' % (name, f), where, 'posted field `%s: %s` lives behind a pointer' % (f, ty[:50]),
+                    'field `%s: %s` of %s is handed to the queue in place: the buffer is part of the driver value, so moving the driver (returning it from the '
+                    'constructor, boxing it) while the request is outstanding makes unshare see a different address range than share did' % (f, ty[:50], name.rsplit('::', 1)[1]))
+    R.count('posting_drivers', n)
 
 
 def dma_field_roles(F, M):
